@@ -103,6 +103,8 @@ def hand_written():
             "THIRD" taggedstruct {
                 "CFG" struct { char[4]; int64; }; /// and a third CFG
             };
+            "CHANNEL_A" struct { uint; taggedstruct { "MODE" enum ModeA { "SLOW", "FAST" } mode; }; };
+            "CHANNEL_B" struct { uint; taggedstruct { "MODE" enum ModeB { "COLD", "WARM", "HOT" } mode; }; };
         };
 """
     level = EN("Level", ("LOW", 1), ("MID", None), ("HIGH", 3))
@@ -112,7 +114,11 @@ def hand_written():
             TG("CFG", M(ST("", M(S("uint")), M(EN("Level", ref=True)), M(S("char"), 8)))),
             TG("LIST", M(ST("Entry", M(S("ulong")), M(EN("Level", ref=True)))), block=True, seq=True),
             TG("BLK", M(TS("", TG("CFG", M(ST("", M(S("float")), M(S("double"))))), TG("REP", M(S("uchar")), repeat=True))), block=True),
-            TG("THIRD", M(TS("", TG("CFG", M(ST("", M(S("char"), 4), M(S("int64"))))))))]))},
+            TG("THIRD", M(TS("", TG("CFG", M(ST("", M(S("char"), 4), M(S("int64")))))))),
+            # equally tagged and equally named members that refer to different named enums (the generated types stay apart)
+            TG("CHANNEL_A", M(ST("", M(S("uint")), M(TS("", TG("MODE", M(EN("ModeA", ("SLOW", None), ("FAST", None))))))))),
+            TG("CHANNEL_B", M(ST("", M(S("uint")), M(TS("", TG("MODE", M(EN("ModeB", ("COLD", None), ("WARM", None), ("HOT", None))))))))),
+        ]))},
     ]
     return [("Full", full, None), ("Small", small, None), ("Documented", documented, documented_text)]
 
